@@ -38,7 +38,7 @@ def check_composite(xsrc: str, ranges, variant: str = "shipped"):
     call = tree.body
     if not isinstance(call, ast.Call):
         return {"kind": "not-a-call"}
-    got = [(a.lineno, a.col_offset, a.end_col_offset) for a in call.args]
+    got = [(a.lineno, a.col_offset, a.end_lineno, a.end_col_offset) for a in call.args]
     if got != [tuple(x) for x in ranges]:
         return {"kind": "word-boundaries", "got": got, "want": ranges, "unparsed": ast.unparse(tree)[:200]}
     return {"ok": True}
@@ -99,14 +99,17 @@ def build_inputs(tier):
                     w = "$" + r.choice(["A", "HOME"])
                 elif k < 0.9:
                     w = "@(" + r.choice(["x", "f(1)", "[1, 2]"]) + ")"
-                else:
+                elif k < 0.96:
                     w = r.choice(["'q'", '"w z"'])
+                else:
+                    w = r.choice(["'''x\ny'''", '"""p q\n  r"""', "'''a\n\nb'''"])  # a quoted piece that spans lines, inside a word
                 # a NAME directly after $NAME would extend the name; keep a separator piece
                 if text[start:] and (text[-1].isalnum() or text[-1] == "_") and (w[0].isalnum() or w[0] == "_"):
                     w = "/" + w
                 text += w
             nl = text.rfind("\n", 0, start) + 1
-            ranges.append((text.count("\n", 0, start) + 1, start - nl, len(text) - nl))
+            enl = text.rfind("\n") + 1
+            ranges.append((text.count("\n", 0, start) + 1, start - nl, text.count("\n") + 1, len(text) - enl))
         text += r.choice(["", " "]) + c
         cases.append(("composite", text, ranges, ["composite"]))
     return cases
@@ -135,7 +138,7 @@ def run(rep, tier, pool, variants=("shipped",)):
                 rep.count("word:" + k)
             if o.get("ok"):
                 continue
-            if o.get("k") in ("hang", "crash", "worker-exc"):
+            if o.get("k") in ("hang", "crash", "worker-exc", "not-run"):
                 rep.count("infra:" + o["k"])
                 continue
             fid = classify(x, o)
